@@ -625,6 +625,130 @@ def _complements(model, rep):
     fn = mcls.methods["boundary_facets"]
 
 
+# ----------------------------------------------------------------------
+# width of index arithmetic
+INDEX_TABLES = {"t", "facets", "edges", "t2f", "t2e", "f2t", "f2e", "t2t"}
+WIDE = ("int64", "np.int64", "int", "np.int_", "float", "np.float64",
+        "np.uint64", "object")
+
+
+def _index_width(model, rep):
+    """The connectivity tables are stored as int32 (Mesh.__post_init__).
+    A product of two quantities that both grow with the number of vertices
+    / entities, evaluated on those arrays without widening, wraps silently
+    beyond 2^31: distinct entities would receive the same key.  Degree
+    inference: tables and everything sliced / sorted / stacked / maxed from
+    them have degree 1; a product adds degrees; sums take the maximum;
+    astype / constructor calls to a 64-bit or Python type reset it."""
+    R5 = "C11-R5"
+    pi = model.cls(MESH, "Mesh").methods["__post_init__"]
+    narrow = any(isinstance(n, ast.Assign) and src(n.targets[0]) == "self.t"
+                 and "np.int32" in src(n.value) for n in ast.walk(pi.node))
+    if not narrow:
+        raise AnalysisError("Mesh.__post_init__ no longer stores t as int32: "
+                            "the width rule needs the storage type")
+    n_fn = n_mul = 0
+    for fn in model.all_functions():
+        if fn.path not in ("skfem/mesh/mesh.py", "skfem/mesh/mesh_2d.py",
+                           "skfem/mesh/mesh_3d.py",
+                           "skfem/mesh/mesh_simplex.py"):
+            continue
+        n_fn += 1
+        deg: Dict[str, int] = {}
+        params = set(fn.params())
+
+        def d(e) -> int:
+            if isinstance(e, ast.Name):
+                if e.id in deg:
+                    return deg[e.id]
+                return 1 if e.id in INDEX_TABLES and e.id in params else 0
+            if isinstance(e, ast.Attribute):
+                if e.attr in INDEX_TABLES and src(e.value) in ("self", "m",
+                                                               "mesh"):
+                    return 1
+                if e.attr in ("T",):
+                    return d(e.value)
+                return 0
+            if isinstance(e, ast.Subscript):
+                return d(e.value)
+            if isinstance(e, ast.BinOp):
+                l, r = d(e.left), d(e.right)
+                if isinstance(e.op, ast.Mult):
+                    return l + r
+                if isinstance(e.op, (ast.Add, ast.Sub, ast.BitOr,
+                                     ast.BitAnd, ast.BitXor)):
+                    return max(l, r)
+                if isinstance(e.op, (ast.FloorDiv, ast.Mod)):
+                    return l
+                return 0
+            if isinstance(e, ast.UnaryOp):
+                return d(e.operand)
+            if isinstance(e, (ast.Tuple, ast.List)):
+                return max([d(x) for x in e.elts], default=0)
+            if isinstance(e, (ast.ListComp, ast.GeneratorExp)):
+                return d(e.elt)
+            if isinstance(e, ast.IfExp):
+                return max(d(e.body), d(e.orelse))
+            if isinstance(e, ast.Call):
+                f = e.func
+                fs = src(f)
+                if isinstance(f, ast.Attribute) and f.attr == "astype":
+                    return 0 if (e.args and src(e.args[0]) in WIDE) \
+                        else d(f.value)
+                if fs in WIDE:
+                    return 0
+                if any(k.arg == "dtype" and src(k.value) in WIDE
+                       for k in e.keywords):
+                    return 0
+                if fs in ("np.max", "np.min", "np.sort", "np.unique",
+                          "np.hstack", "np.vstack", "np.concatenate",
+                          "np.ascontiguousarray", "np.asarray", "np.array",
+                          "np.tile", "np.repeat", "np.roll", "tuple",
+                          "np.amax", "np.flip", "np.abs", "np.sum"):
+                    return max([d(a) for a in e.args], default=0)
+                if isinstance(f, ast.Attribute) and f.attr in (
+                        "max", "min", "flatten", "copy", "reshape", "sum",
+                        "ravel", "transpose"):
+                    return d(f.value)
+                return 0
+            return 0
+        stmts = sorted([n for n in walk_no_nested(fn.node)
+                        if isinstance(n, (ast.Assign, ast.AugAssign))],
+                       key=lambda n: n.lineno)
+        for _ in range(2):
+            for st in stmts:
+                if isinstance(st, ast.Assign):
+                    v = d(st.value)
+                    for t in st.targets:
+                        for x in (t.elts if isinstance(t, ast.Tuple)
+                                  else [t]):
+                            if isinstance(x, ast.Name):
+                                # np.unique(..., return_index/inverse):
+                                # positions, still index-sized
+                                deg[x.id] = max(deg.get(x.id, 0), v)
+                elif isinstance(st.target, ast.Name):
+                    deg[st.target.id] = max(
+                        deg.get(st.target.id, 0),
+                        d(ast.BinOp(left=st.target, op=st.op,
+                                    right=st.value)))
+        for n in walk_no_nested(fn.node):
+            if isinstance(n, ast.BinOp) and isinstance(n.op, ast.Mult) and \
+                    d(n.left) >= 1 and d(n.right) >= 1:
+                n_mul += 1
+                rep.fail(R5, fn.path, fn.short(),
+                         f"{fn.short()}:{src(n)[:50]}",
+                         f"'{src(n)[:70]}' multiplies two quantities that "
+                         f"both grow with the mesh size in the int32 "
+                         f"arithmetic of the connectivity tables: beyond "
+                         f"46341 vertices the product can wrap and two "
+                         f"different entities get the same key (widen one "
+                         f"operand to 64 bits first)", n.lineno)
+    rep.ok(R5, "index-arithmetic",
+           f"{n_fn} functions over the int32 connectivity tables: no product "
+           f"of two size-dependent index quantities without widening")
+    rep.units("functions checked for index-arithmetic width", n_fn)
+
+
 def run(model: Model, rep, tier: str) -> None:
     rep.rule("C11-R1", "layout agreement in build_entities / build_inverse "
              "/ incidence matrices")
@@ -633,6 +757,9 @@ def run(model: Model, rep, tier: str) -> None:
     rep.rule("C11-R3", "missing-neighbour marker and row agree between "
              "writer and all readers")
     rep.rule("C11-R4", "interior sets are complements of boundary sets")
+    rep.rule("C11-R5", "entity keys are not computed by size-squared "
+             "products in 32-bit index arithmetic")
+    _index_width(model, rep)
     sentinel = _layout_rules(model, rep)
     _incidence(model, rep)
     _refdom_tables(model, rep)
@@ -645,6 +772,16 @@ def run(model: Model, rep, tier: str) -> None:
 
 _R = "skfem/refdom.py"
 MUTANTS = [
+    ("entities deduplicated through a 32-bit scalar key lo * nverts + hi",
+     (FM, "        sorted_indexing, ixa, ixb = np.unique(sorted_indexing,\n"
+      "                                              axis=1,\n"
+      "                                              return_index=True,\n"
+      "                                              return_inverse=True)\n",
+      "        keys = sorted_indexing[0] * (np.max(t) + 1) + "
+      "sorted_indexing[1]\n"
+      "        _, ixa, ixb = np.unique(keys, return_index=True,\n"
+      "                                return_inverse=True)\n"
+      "        sorted_indexing = sorted_indexing[:, ixa]\n"), "C11-R5"),
     ("build_inverse flattens the table in Fortran order",
      (FM, "        e = mapping.flatten(order='C')", "        e = "
       "mapping.flatten(order='F')"), "C11-R1"),
